@@ -35,6 +35,10 @@ type pwCase struct {
 	returned bool
 	stuck    string
 	moves    int // tokens taken from the lexer
+	// at the return: the token under the parser (-1: its type was never looked at) and whether the result is nil
+	endCur   int64
+	resIsNil bool
+	resKnown bool
 }
 
 type parserWalker struct {
@@ -304,7 +308,22 @@ func (w *parserWalker) walk(fn *ssa.Function, observe map[*ssa.Function]bool, do
 		}
 		args := make([]any, len(fn.Params))
 		args[0] = p
-		_, _ = ip.Run(fn, args)
+		runRes, runKnown := ip.Run(fn, args)
+		pc.endCur = -1
+		if ct, ok := p.fields[w.fCur].(*iStruct); ok {
+			if k, isK := ct.fields[w.fType].(constant.Value); isK {
+				pc.endCur, _ = constant.Int64Val(k)
+			}
+		}
+		if runKnown {
+			switch runRes.(type) {
+			case iNil:
+				pc.resIsNil, pc.resKnown = true, true
+			case nil:
+			default:
+				pc.resKnown = true
+			}
+		}
 		if need != "" {
 			// the evaluation looked at something not fixed yet: every value in turn
 			if _, fixed := assign[need]; fixed || len(assign) >= maxVars {
@@ -525,6 +544,228 @@ func (m *Model) RunBodyEntry(s *Sink, rule string) {
 					s.OK(rule, key, m.InstrPos(site), "case evaluation on the abstract parser (%d cases over %d token types): at every entry into %s the token under the parser has been looked at and is not END / ELSE / ELSE_IF", cases, len(dom), bp.Name())
 				}
 			}
+		}
+	}
+}
+
+// RunSlotListEnd — R-DELIM (slot list): a component use with slots is closed by its own @end. The function that parses
+// the slot list (its result becomes ComponentStmt.Slots) is case-evaluated on the abstract parser; whenever it returns a
+// list (not nil), the token under the parser has been looked at and is END — the statement parser's caller steps over
+// the last token of every statement without looking at it, so anything else there is swallowed: a missing @end is not
+// reported, and `@component("c")@slot x@end@if(a)b@end` loses its @if.
+func (m *Model) RunSlotListEnd(s *Sink, rule string) {
+	pm := m.extractPratt()
+	end, okEnd := pm.tokVal["END"]
+	w, why := m.newParserWalker()
+	if w == nil || !okEnd {
+		s.Undecided(rule, "slot list", "-", "%s", why)
+		return
+	}
+	// the slot-list parser: the parser function whose result is stored into ComponentStmt.Slots
+	var sl *ssa.Function
+	for _, fn := range m.ModFns {
+		if fn.Blocks == nil || shortPkg(fnPkgPath(fn)) != "parser" {
+			continue
+		}
+		for _, b := range fn.Blocks {
+			for _, in := range b.Instrs {
+				st, ok := in.(*ssa.Store)
+				if !ok {
+					continue
+				}
+				fa, ok := st.Addr.(*ssa.FieldAddr)
+				if !ok || fieldName(fa.X.Type(), fa.Field) != "Slots" || !strings.HasSuffix(derefTypeString(fa.X.Type()), "ast.ComponentStmt") {
+					continue
+				}
+				if c, isC := st.Val.(*ssa.Call); isC && c.Call.StaticCallee() != nil && shortPkg(fnPkgPath(c.Call.StaticCallee())) == "parser" {
+					sl = c.Call.StaticCallee()
+				}
+			}
+		}
+	}
+	if sl == nil {
+		s.Undecided(rule, "slot list", "-", "no parser function whose result becomes ComponentStmt.Slots")
+		return
+	}
+	set := map[int64]bool{}
+	w.tokensMentioned(sl, map[*ssa.Function]bool{}, set)
+	set[end] = true
+	var all []int64
+	for v := range pm.tokName {
+		all = append(all, v)
+	}
+	sort.Slice(all, func(i, j int) bool { return all[i] < all[j] })
+	for _, v := range all {
+		if !set[v] {
+			set[v] = true
+			break
+		}
+	}
+	var dom []int64
+	for v := range set {
+		dom = append(dom, v)
+	}
+	sort.Slice(dom, func(i, j int) bool { return dom[i] < dom[j] })
+	key := fnKey(sl) + "|a slot list ends on the component's @end"
+	cases, lists := 0, 0
+	bad, badLen := "", 0
+	why2 := w.walk(sl, map[*ssa.Function]bool{}, dom, nil, 9, 300000, func(pc pwCase) {
+		cases++
+		if !pc.returned || !pc.resKnown || pc.resIsNil {
+			return
+		}
+		lists++
+		if pc.endCur == end {
+			return
+		}
+		if bad != "" && badLen <= len(pc.assign) {
+			return
+		}
+		what := "a token whose type was never looked at"
+		if pc.endCur >= 0 {
+			what = pm.tokName[pc.endCur]
+		}
+		badLen = len(pc.assign)
+		bad = fmt.Sprintf("it can return a slot list while the parser stands on %s", what)
+	})
+	switch {
+	case why2 != "":
+		s.Undecided(rule, key, m.Pos(sl.Pos()), "%s could not be evaluated on the abstract parser (%s)", fnKey(sl), why2)
+	case lists == 0:
+		s.Undecided(rule, key, m.Pos(sl.Pos()), "no evaluated case of %s returns a list (%d cases)", fnKey(sl), cases)
+	case bad != "":
+		s.Violation(rule, key, m.Pos(sl.Pos()), "%s parses the slots of a component use; %s: the caller steps over the last token of a statement unseen, so a component whose own @end is missing is accepted, and whatever stands there instead is swallowed (`@component(\"c\")@slot x@end@if(a)b@end` loses `@if(a)`; text after the last slot disappears)", fnKey(sl), bad)
+	default:
+		s.OK(rule, key, m.Pos(sl.Pos()), "case evaluation on the abstract parser (%d cases, %d returning a list): a list is returned only with the parser standing on END", cases, lists)
+	}
+}
+
+// RunTextSkip — R-TEXTKEEP (skipped text): the parser steps over a text token that it does not turn into a statement
+// only when the token is known to be whitespace. A call of nextToken under "the current token is text" is also under
+// a whitespace test of that token's literal.
+func (m *Model) RunTextSkip(s *Sink, rule string) {
+	nt := m.Method("parser", "Parser", "nextToken")
+	pm := m.extractPratt()
+	html, okH := pm.tokVal["HTML"]
+	if nt == nil || !okH {
+		s.Undecided(rule, "parser.nextToken", "-", "nextToken / token.HTML not found")
+		return
+	}
+	n, bad := 0, 0
+	for _, fn := range m.ModFns {
+		if fn.Blocks == nil || shortPkg(fnPkgPath(fn)) != "parser" {
+			continue
+		}
+		for _, b := range fn.Blocks {
+			for _, in := range b.Instrs {
+				c, ok := in.(*ssa.Call)
+				if !ok || c.Call.StaticCallee() != nt {
+					continue
+				}
+				onText, white := false, false
+				for _, f := range expandFacts(factsAt(b)) {
+					fc, isC := f.Cond.(*ssa.Call)
+					if !isC || fc.Call.StaticCallee() == nil || !f.Holds {
+						continue
+					}
+					switch canonFnName(fc.Call.StaticCallee()) {
+					case "curTokenIs":
+						if len(fc.Call.Args) == 2 {
+							if k, isK := fc.Call.Args[1].(*ssa.Const); isK && k.Value != nil && k.Int64() == html {
+								onText = true
+							}
+						}
+					case "isWhitespace", "IsWhitespace", "isBlank", "IsBlank":
+						if len(fc.Call.Args) >= 1 {
+							if _, p, okP := pathOf(fc.Call.Args[len(fc.Call.Args)-1]); okP && strings.HasSuffix(p, ".curToken.Literal") {
+								white = true
+							}
+						}
+					}
+				}
+				if !onText {
+					continue
+				}
+				n++
+				key := fmt.Sprintf("%s|text stepped over is whitespace", fnKey(fn))
+				if white {
+					s.OK(rule, key, m.InstrPos(c), "the step lies under isWhitespace(p.curToken.Literal)")
+				} else {
+					bad++
+					s.Violation(rule, key, m.InstrPos(c), "%s steps over a text token (nextToken under curTokenIs(HTML)) without a whitespace test of its literal: text written there disappears from the output without an error", fnKey(fn))
+				}
+			}
+		}
+	}
+	if n == 0 {
+		s.OK(rule, "parser|no text token is stepped over", "-", "no nextToken under curTokenIs(HTML) in the parser")
+	}
+}
+
+// RunCodeEnd — R-DELIM (end of code): embedded code may be followed by "}}", by ";" or by ")" (the last ends a clause
+// of @for). After a statement the program parser steps onto that token and asks the statement parser what it starts:
+// for every token the end-of-code test accepts, other than "}}" itself, the statement parser — case-evaluated with
+// that token as the current one — hands it to a parse function or records an error. A ")" that is silently skipped
+// lets `{{ x )` through: the "{{" is never closed.
+func (m *Model) RunCodeEnd(s *Sink, rule string) {
+	pm := m.extractPratt()
+	ps := m.Method("parser", "Parser", "parseStatement")
+	eoc := m.Method("parser", "Parser", "expectEndOfCode")
+	w, why := m.newParserWalker()
+	if ps == nil || eoc == nil || w == nil {
+		s.Undecided(rule, "end of code", "-", "parseStatement / expectEndOfCode not found (%s)", why)
+		return
+	}
+	// the tokens the end-of-code test accepts: the constants it hands to peekTokenIs
+	accepted := map[int64]bool{}
+	w.tokensMentioned(eoc, map[*ssa.Function]bool{}, accepted)
+	var toks []int64
+	for tv := range accepted {
+		if n := pm.tokName[tv]; n != "RBRACES" && n != "" {
+			toks = append(toks, tv)
+		}
+	}
+	sort.Slice(toks, func(i, j int) bool { return toks[i] < toks[j] })
+	if len(toks) == 0 {
+		s.Undecided(rule, "end of code", "-", "no token constants found in expectEndOfCode")
+		return
+	}
+	for _, tv := range toks {
+		key := fmt.Sprintf("%s|%s where a statement is expected is parsed or reported", fnKey(ps), pm.tokName[tv])
+		handled, stuck := false, ""
+		n := 0
+		why2 := w.walk(ps, map[*ssa.Function]bool{}, []int64{tv}, map[string]int64{"c0": tv}, 3, 200, func(pc pwCase) {
+			n++
+			if pc.stuck != "" && stuck == "" {
+				stuck = pc.stuck
+			}
+		})
+		_ = why2
+		// what the statement parser does with this token: any call of a parser method other than the token tests
+		ip := &Interp{m: m, useGlobals: true}
+		p := &iStruct{typ: w.parT, fields: map[int]any{w.fCur: &iStruct{typ: w.tokT, val: true, fields: map[int]any{w.fType: constant.MakeInt64(tv)}}}}
+		ip.call = func(c *ssa.Call, args []any) (any, bool) {
+			sc := c.Call.StaticCallee()
+			if sc == nil || shortPkg(fnPkgPath(sc)) != "parser" {
+				return nil, false
+			}
+			switch canonFnName(sc) {
+			case "curTokenIs", "peekTokenIs":
+				return nil, false
+			}
+			handled = true // a parse function takes over, or an error is recorded
+			return nil, true
+		}
+		args := make([]any, len(ps.Params))
+		args[0] = p
+		ip.Run(ps, args)
+		switch {
+		case ip.stuck != "" && !handled:
+			s.Undecided(rule, key, m.Pos(ps.Pos()), "parseStatement could not be evaluated with %s as the current token (%s)", pm.tokName[tv], ip.stuck)
+		case handled:
+			s.OK(rule, key, m.Pos(ps.Pos()), "with %s as the current token the statement parser calls a parse function or records an error", pm.tokName[tv])
+		default:
+			s.Violation(rule, key, m.Pos(ps.Pos()), "embedded code may end before %s (the end-of-code test accepts it), but where a statement is expected %s is skipped without an error: `{{ x %s` is accepted although its opening braces are never closed", pm.tokName[tv], pm.tokName[tv], map[string]string{"RPAREN": ")", "SEMI": ";"}[pm.tokName[tv]])
 		}
 	}
 }
